@@ -203,6 +203,9 @@ def _check_mo_validators(ctx, mo):
             # (label, kind, stored counts, value, expected)
             rows += [
                 (f"generalized, {attr} = 3", "generalized", {"norba": None, "norbb": None}, 3, "ValueError"),
+                (f"generalized, {attr} = 0", "generalized", {"norba": None, "norbb": None}, 0, "ValueError"),
+                (f"unrestricted 0/3, {attr} = 0", "unrestricted", {"norba": 0, "norbb": 3}, 0, None),
+                (f"restricted 0/0, {attr} = 0", "restricted", {"norba": 0, "norbb": 0}, 0, None),
                 (f"generalized, {attr} = None", "generalized", {"norba": None, "norbb": None}, None, None),
                 (f"unrestricted, {attr} = None", "unrestricted", {"norba": 5, "norbb": 3}, None, "ValueError"),
                 (f"unrestricted 5/3, {attr} = 4", "unrestricted", {"norba": 5, "norbb": 3}, 4, None),
